@@ -309,7 +309,8 @@ fn run_case(case: &Value, tokio_rt: &tokio::runtime::Runtime) -> Value {
 
     macro_rules! step_loop {
         ($sessions:ident, $run:expr) => {
-            for step in &steps {
+            for (step_idx, step) in steps.iter().enumerate() {
+                glaredb_core::verif::emit("Stmt", &[("i", step_idx.to_string())]);
                 let s = step.get("s").and_then(|s| s.as_u64()).unwrap_or(0) as usize;
                 let sql = step.get("sql").and_then(|s| s.as_str()).unwrap_or("");
                 let sess = &mut $sessions[s];
